@@ -13,6 +13,7 @@
 #include "sqfs/block.h"
 #include "sqfs/io.h"
 #include "util/util.h"
+#include "util/verif_hooks.h"
 
 #include <stdlib.h>
 #include <string.h>
@@ -103,6 +104,7 @@ int sqfs_meta_reader_seek(sqfs_meta_reader_t *m, sqfs_u64 block_start,
 		return SQFS_ERROR_OUT_OF_BOUNDS;
 
 	if (block_start == m->block_offset) {
+		VERIF_PROBE("meta_reader_cache_hit");
 		if (offset >= m->data_used)
 			return SQFS_ERROR_OUT_OF_BOUNDS;
 
@@ -110,6 +112,7 @@ int sqfs_meta_reader_seek(sqfs_meta_reader_t *m, sqfs_u64 block_start,
 		return 0;
 	}
 
+	VERIF_PROBE("meta_reader_cache_miss");
 	err = m->file->read_at(m->file, block_start, &header, 2);
 	if (err)
 		return err;
